@@ -3,7 +3,8 @@
    Txtar/TxtarFacts.v or Txtar/QuoteFacts.v, with Print Assumptions beneath it. *)
 From Coq Require Import List.
 From Coq.Strings Require Import Byte.
-From GI Require Import Lib.Bytes Gen.TxtarConsts Txtar.Txtar Txtar.TxtarFacts Txtar.QuoteFacts.
+From GI Require Import Lib.Bytes Gen.TxtarConsts Txtar.Txtar Txtar.TxtarFacts Txtar.QuoteFacts
+  Txtar.TxtarIndex Txtar.TxtarIndexFacts Txtar.TxtarHolds Txtar.TxtarHoldsFacts.
 Import ListNotations.
 
 Theorem C14_needs_quote_exact : forall d,
@@ -46,3 +47,13 @@ Theorem C14_quote_refuses : forall d,
   quote d = None <-> d <> [] /\ (last_byte d <> Some NL \/ utf8_valid d = false).
 Proof. exact quote_refuses. Qed.
 Print Assumptions C14_quote_refuses.
+
+(* ---- the statement-level (index-faithful) model of NeedsQuote, TxtarIndex.v ---- *)
+
+Theorem C14_needs_quote_idx_eq : forall d, needs_quote_idx d = Ok (needs_quote d).
+Proof. exact needs_quote_idx_eq. Qed.
+Print Assumptions C14_needs_quote_idx_eq.
+
+Theorem C14_holds_on : forall d, c14_holds_on d = true.
+Proof. exact c14_holds_on_true. Qed.
+Print Assumptions C14_holds_on.
